@@ -30,11 +30,11 @@ RECURSIVE Comp(_), AllComp(_)
 Comp(L) == IF L = 0 THEN << <<>> >> ELSE CompNext(Comp(L - 1))
 AllComp(K) == IF K = 0 THEN Comp(0) ELSE AllComp(K - 1) \o Comp(K)
 
-SeqLineC(pre, comps) ==
-  [kind  |-> "seq", pre |-> pre,
-   codes |-> [q \in 1..Len(comps) |-> Class(Toks(pre \o comps[q]))],
-   wf    |-> {[toks |-> Toks(pre \o comps[q]), exp |-> Meaning(Toks(pre \o comps[q]))] :
-                q \in {q \in 1..Len(comps) : WellFormed(Toks(pre \o comps[q]))}}]
+WfCase(s) == [toks |-> s, exp |-> Meaning(s)]
+SeqLineQ(pre, comps, codes) ==
+  [kind  |-> "seq", pre |-> pre, codes |-> codes,
+   wf    |-> {WfCase(Toks(pre \o comps[q])) : q \in {q \in 1..Len(comps) : codes[q] = 1}}]
+SeqLineC(pre, comps) == SeqLineQ(pre, comps, [q \in 1..Len(comps) |-> Class(Toks(pre \o comps[q]))])
 SeqLine(pre) == SeqLineC(pre, IF Len(pre) = 1 THEN Comp(0) ELSE AllComp(MaxLen - 2))
 
 X == SAt("dport", "=", "80")
@@ -52,13 +52,14 @@ GenStyles == IF GenThorough
 CmpStyles == {Style(a, a, n, i, 1, f) : a \in 1..2, n \in 1..2, i \in 1..6, f \in BOOLEAN}
 CmpTrees(c) == {SAt("dport", c, "80"), SNot(SAt("dport", c, "80")), SAnd(SAt("dport", c, "80"), Y),
                 SOr(SNot(SAt("dport", c, "80")), Y)}
-DocTrees == {SAnd(SAnd(SAt("proto", "=", "TCP"), SAt("snet", "!=", "10.0.0.0/8")),
+DocTrees == {SAnd(SAnd(SAt("proto", "=", "TCP"), SAt("snet", "!=", "192.168.0.0/16")),
                   SOr(SAt("dport", "<=", "443"), SAt("dport", ">=", "80"))),
              SOr(SNot(SAt("dport", "=", "80")), SAnd(SAt("dport", "=", "443"), SAt("proto", "=", "tcp"))),
-             SAnd(SAt("host", "=", "2001::1"), SAt("net", "!=", "2001::/16"))}
+             SAnd(SAt("host", "=", "2001::1"), SAt("net", "!=", "ff02::/16"))}
 
+Strings(x) == [i \in 1..Len(x) |-> x[i].s]
 TreeLine(t, styles) == [kind |-> "tree", tree |-> t, exp |-> Selection(ToCond(t)),
-                        texts |-> {[i \in 1..Len(Surface(t, st)) |-> Surface(t, st)[i].s] : st \in styles}]
+                        texts |-> {Strings(Surface(t, st)) : st \in styles}]
 
 Items == {[kind |-> "seq", pre |-> <<i>>] : i \in 1..NA}
          \cup (IF MaxLen >= 2 THEN {[kind |-> "seq", pre |-> <<i, j>>] : i, j \in 1..NA} ELSE {})
